@@ -41,11 +41,12 @@ TEXT = {
                 "a successful SignatureVerifier.Verify returns >= threshold distinct principals of the rule, injectively credited through "
                 "their own keys with valid signatures over exactly this object / envelope, at most one through the Git signature; the same "
                 "bookkeeping holds for the set reported with 'conditions unmet' (C05_unmet_credited); threshold < 1 or no principals is "
-                "never satisfied (C05_invalid). Completeness (C05_complete_env): when the principals share no keys, the rule is satisfied "
-                "whenever at least threshold of them signed the envelope. The model is compared with the real Verify (verifiers from "
+                "never satisfied (C05_invalid). Completeness (C05_complete, C05_complete_env): when the principals share no keys, the rule is "
+                "satisfied whenever at least threshold of them signed - the Git object, the envelope, or both; a kernel-evaluated example "
+                "with a shared key shows the hypothesis cannot be dropped. The model is compared with the real Verify (verifiers from "
                 "FindVerifiersForPath, real ed25519 signatures) under every map iteration order; both directions are also evaluated on "
                 "the implementation's own output.",
-        "note": TB + "Completeness is proved for envelope signers (no Git object); with a Git signature it is evaluated on the implementation only. "
+        "note": TB + "Completeness assumes an envelope, when present, carries at least one signature (F28 otherwise). "
                 "Only SSH keys are generated. An envelope without any signature makes Verify fail hard (modelled; finding F28).",
         "technique": "Lean 4 proof (invariants over the principal loop, counting by injectivity) + differential correspondence",
     },
